@@ -106,6 +106,139 @@ theorem genList_set (G : TT S Unit) : ∀ (ks : List Prog) (args : List (Ty × S
     simp only [List.set_cons_succ, genList, Bool.and_eq_true]
     exact ⟨h.1, genList_set G ks as i q a h.2 ha hq⟩
 
+/-! ### the priority function (specification) and `compute_priority` -/
+
+/- **the priority of the statement**: the rule's priority combined, from left to right, with the
+   priorities of the arguments at the non-terminals of the rule (heap search: the product of the
+   rule probabilities, see `prioSpec_prob`; bucket search: the sum of the rule buckets) -/
+mutual
+  def prioSpec (E : Env S Unit π) : Prog → NT S Unit → Option π
+    | .node F kids, nt =>
+      match ruleW E nt F, E.G.rule? nt F with
+      | some w, some (ra, _) => prioList E kids ra (E.ops.ofRule w)
+      | _, _ => none
+  def prioList (E : Env S Unit π) : List Prog → List (Ty × S) → π → Option π
+    | [], [], acc => some acc
+    | k :: ks, a :: as, acc =>
+      match prioSpec E k (argNT a) with
+      | none => none
+      | some pk => prioList E ks as (E.ops.combine acc pk)
+    | _, _, _ => none
+end
+
+/-- the memo table of `compute_priority` agrees with the specification -/
+def CacheOK (E : Env S Unit π) (c : AList (Prog × NT S Unit) π) : Prop :=
+  ∀ p nt v, AList.lookup (p, nt) c = some v → prioSpec E p nt = some v
+
+theorem CacheOK.insert {E : Env S Unit π} {c : AList (Prog × NT S Unit) π} (h : CacheOK E c)
+    (p : Prog) (nt : NT S Unit) (v : π) (hv : prioSpec E p nt = some v) :
+    CacheOK E (AList.insert (p, nt) v c) := by
+  intro p' nt' v' hl
+  rw [AList.lookup_insert] at hl
+  split at hl
+  · rename_i heq; cases hl; cases heq; exact hv
+  · exact h p' nt' v' hl
+
+/-- the argument loop of `compute_priority` computes `prioList` -/
+theorem prioArgs_spec (E : Env S Unit π) (c : AList (Prog × NT S Unit) π) (hc : CacheOK E c) :
+    ∀ (ks : List Prog) (a : Ty × S) (as : List (Ty × S)) (acc p : π),
+      genList E.G ks (a :: as) = true → prioArgs E c ks as (argNT a) acc = some p →
+      prioList E ks (a :: as) acc = some p
+  | [], a, as, acc, p, hg, _ => by simp [genList] at hg
+  | k :: rest, (t, s0), as, acc, p, hg, h => by
+    simp only [genList, Bool.and_eq_true] at hg
+    unfold prioArgs at h
+    cases hl : AList.lookup (k, argNT (t, s0)) c with
+    | none => simp [hl] at h
+    | some pa =>
+      simp only [hl] at h
+      have hpa := hc k (argNT (t, s0)) pa hl
+      rw [prioList, hpa]
+      simp only
+      cases as with
+      | nil =>
+        have hr := genList_nil_right E.G rest hg.2
+        subst hr
+        split at h
+        · simp only [Option.some.injEq] at h; subst h; rfl
+        · cases hda : deriveAll E.G k [] (argNT (t, s0)) with
+          | none => simp [hda] at h
+          | some r =>
+            simp only [hda, prioArgs, Option.some.injEq] at h
+            subst h; rfl
+      | cons a' as' =>
+        cases rest with
+        | nil => simp [genList] at hg
+        | cons k' rest' =>
+          simp only [List.isEmpty_cons, Bool.false_and, Bool.false_eq_true, if_false] at h
+          obtain ⟨r2, hr2, hadv1, hadv2⟩ := deriveAll_gen E.G k (argNT (t, s0)) (a' :: as') hg.1
+          rw [hr2] at h
+          simp only at h
+          rw [hadv1, hadv2 a' as' rfl] at h
+          exact prioArgs_spec E c hc (k' :: rest') a' as' _ p hg.2 h
+
+/-- **`compute_priority(S, program)` returns the priority of the specification** for a program
+    derivable from `S`, and keeps the memo table correct -/
+theorem computePrio_spec (E : Env S Unit π) (c : AList (Prog × NT S Unit) π) (hc : CacheOK E c)
+    (nt : NT S Unit) (prog : Prog) (hg : gen E.G prog nt = true) (c' : AList (Prog × NT S Unit) π) (v : π)
+    (h : computePrio E c nt prog = some (c', v)) : prioSpec E prog nt = some v ∧ CacheOK E c' := by
+  unfold computePrio at h
+  split at h
+  · rename_i p hp
+    simp only [Option.some.injEq, Prod.mk.injEq] at h
+    obtain ⟨rfl, rfl⟩ := h
+    split at hp
+    · exact ⟨hc _ _ _ hp, hc⟩
+    · cases hp
+  · obtain ⟨F, kids⟩ := prog
+    rw [gen] at hg
+    cases hr : E.G.rule? nt F with
+    | none => simp [hr] at hg
+    | some rl =>
+      obtain ⟨ra, u⟩ := rl
+      simp only [hr] at hg
+      cases kids with
+      | nil =>
+        simp only at h
+        cases hw : ruleW E nt F with
+        | none => simp [hw] at h
+        | some w =>
+          simp only [hw, Option.some.injEq, Prod.mk.injEq] at h
+          obtain ⟨rfl, rfl⟩ := h
+          have hra : ra = [] := by
+            cases ra with
+            | nil => rfl
+            | cons _ _ => simp [genList] at hg
+          subst hra
+          have hv : prioSpec E (.node F []) nt = some (E.ops.ofRule w) := by
+            rw [prioSpec, hw, hr]; rfl
+          exact ⟨hv, hc.insert _ _ _ hv⟩
+      | cons a as =>
+        simp only at h
+        cases hw : ruleW E nt F with
+        | none => simp [hw] at h
+        | some w =>
+          unfold derive at h
+          simp only [hw, hr] at h
+          split at h
+          · simp at h
+          · cases ra with
+            | nil => simp [genList] at hg
+            | cons a0 as0 =>
+              split at h
+              · simp at h
+              · rename_i p hp
+                simp only [Option.some.injEq, Prod.mk.injEq] at h
+                obtain ⟨rfl, rfl⟩ := h
+                have hdw : deriveWith ([] : Info S) nt (a0 :: as0) u = (as0, argNT a0) := by
+                  obtain ⟨t0, s0⟩ := a0
+                  simp [deriveWith, argNT]
+                rw [hdw] at hp
+                have hv : prioSpec E (.node F (a :: as)) nt = some p := by
+                  rw [prioSpec, hw, hr]
+                  exact prioArgs_spec E c hc (a :: as) a0 as0 _ p hg hp
+                exact ⟨hv, hc.insert _ _ _ hv⟩
+
 /-! ### the invariant -/
 
 /-- **soundness invariant**: what is stored for a non-terminal is derivable from it -/
@@ -113,26 +246,36 @@ structure SInv (E : Env S Unit π) (s : St S Unit π) : Prop where
   seen_gen : ∀ nt p, p ∈ s.seenOf nt → gen E.G p nt = true
   heap_seen : ∀ nt e, e ∈ s.heapOf nt → e.2 ∈ s.seenOf nt
   succ_seen : ∀ nt k v, AList.lookup k (s.succOf nt) = some v → v ∈ s.seenOf nt
+  /-- the memo table of `compute_priority` is correct -/
+  cache_ok : CacheOK E s.cache
+  /-- the stored priority of a heap element is the priority function applied to its program -/
+  heap_prio : ∀ nt e, e ∈ s.heapOf nt → prioSpec E e.2 nt = some e.1
 
 theorem SInv.congr {E : Env S Unit π} {s s' : St S Unit π} (h : SInv E s)
     (h1 : ∀ nt, s'.seenOf nt = s.seenOf nt) (h2 : ∀ nt, s'.heapOf nt = s.heapOf nt)
-    (h3 : ∀ nt, s'.succOf nt = s.succOf nt) : SInv E s' :=
+    (h3 : ∀ nt, s'.succOf nt = s.succOf nt) (h4 : CacheOK E s'.cache) : SInv E s' :=
   ⟨fun nt p hp => h.seen_gen nt p (h1 nt ▸ hp),
    fun nt e he => h1 nt ▸ h.heap_seen nt e (h2 nt ▸ he),
-   fun nt k v hk => h1 nt ▸ h.succ_seen nt k v (h3 nt ▸ hk)⟩
+   fun nt k v hk => h1 nt ▸ h.succ_seen nt k v (h3 nt ▸ hk), h4,
+   fun nt e he => h.heap_prio nt e (h2 nt ▸ he)⟩
 
 theorem SInv.setHeap_sub {E : Env S Unit π} {s : St S Unit π} (h : SInv E s) (nt : NT S Unit)
     (h' : List (π × Prog)) (hsub : ∀ e ∈ h', e ∈ s.heapOf nt) : SInv E (s.setHeap nt h') := by
-  refine ⟨h.seen_gen, ?_, h.succ_seen⟩
-  intro nt' e he
-  rw [St.heapOf_setHeap] at he
-  split at he
-  · rename_i heq; subst heq; exact h.heap_seen _ e (hsub e he)
-  · exact h.heap_seen nt' e he
+  refine ⟨h.seen_gen, ?_, h.succ_seen, h.cache_ok, ?_⟩
+  · intro nt' e he
+    rw [St.heapOf_setHeap] at he
+    split at he
+    · rename_i heq; subst heq; exact h.heap_seen _ e (hsub e he)
+    · exact h.heap_seen nt' e he
+  · intro nt' e he
+    rw [St.heapOf_setHeap] at he
+    split at he
+    · rename_i heq; subst heq; exact h.heap_prio _ e (hsub e he)
+    · exact h.heap_prio nt' e he
 
 theorem SInv.setSucc {E : Env S Unit π} {s : St S Unit π} (h : SInv E s) (nt : NT S Unit)
     (k : Option Prog) (v : Prog) (hv : v ∈ s.seenOf nt) : SInv E (s.setSucc nt k v) := by
-  refine ⟨h.seen_gen, h.heap_seen, ?_⟩
+  refine ⟨h.seen_gen, h.heap_seen, ?_, h.cache_ok, h.heap_prio⟩
   intro nt' k' v' hk
   rw [St.succOf_setSucc] at hk
   split at hk
@@ -146,7 +289,7 @@ theorem SInv.setSucc {E : Env S Unit π} {s : St S Unit π} (h : SInv E s) (nt :
 theorem SInv.pushNew {E : Env S Unit π} {s : St S Unit π} (h : SInv E s) (nt : NT S Unit) (np : Prog)
     (hg : gen E.G np nt = true) : SInv E (pushNew E s nt np) := by
   have h1 : SInv E (s.addSeen nt np) := by
-    refine ⟨?_, ?_, ?_⟩
+    refine ⟨?_, ?_, ?_, h.cache_ok, h.heap_prio⟩
     · intro nt' p hp
       rw [St.seenOf_addSeen] at hp
       split at hp
@@ -171,20 +314,31 @@ theorem SInv.pushNew {E : Env S Unit π} {s : St S Unit π} (h : SInv E s) (nt :
   simp only
   split
   · exact h1
-  · rename_i r _
-    have h2 : SInv E { s.addSeen nt np with cache := r.1 } := h1.congr (fun _ => rfl) (fun _ => rfl) (fun _ => rfl)
+  · rename_i r hcp
+    obtain ⟨hv, hc'⟩ := computePrio_spec E _ h1.cache_ok nt np hg r.1 r.2 hcp
+    have h2 : SInv E { s.addSeen nt np with cache := r.1 } :=
+      h1.congr (fun _ => rfl) (fun _ => rfl) (fun _ => rfl) hc'
     split
-    · refine ⟨h2.seen_gen, ?_, h2.succ_seen⟩
-      intro nt' e he
-      rw [St.heapOf_setHeap] at he
-      split at he
-      · rename_i heq; subst heq
-        have := (Heapq.push_perm (ltE E.ops) _ (r.2, np)).subset he
-        rcases List.mem_cons.mp this with rfl | hm
-        · show np ∈ (s.addSeen nt' np).seenOf nt'
-          rw [St.seenOf_addSeen]; simp
-        · exact h2.heap_seen _ e hm
-      · exact h2.heap_seen nt' e he
+    · refine ⟨h2.seen_gen, ?_, h2.succ_seen, h2.cache_ok, ?_⟩
+      · intro nt' e he
+        rw [St.heapOf_setHeap] at he
+        split at he
+        · rename_i heq; subst heq
+          have := (Heapq.push_perm (ltE E.ops) _ (r.2, np)).subset he
+          rcases List.mem_cons.mp this with rfl | hm
+          · show np ∈ (s.addSeen nt' np).seenOf nt'
+            rw [St.seenOf_addSeen]; simp
+          · exact h2.heap_seen _ e hm
+        · exact h2.heap_seen nt' e he
+      · intro nt' e he
+        rw [St.heapOf_setHeap] at he
+        split at he
+        · rename_i heq; subst heq
+          have := (Heapq.push_perm (ltE E.ops) _ (r.2, np)).subset he
+          rcases List.mem_cons.mp this with rfl | hm
+          · exact hv
+          · exact h2.heap_prio _ e hm
+        · exact h2.heap_prio nt' e he
     · exact h2
 
 theorem SInv.pushStep {E : Env S Unit π} {s : St S Unit π} (h : SInv E s) (F : Sym) (args : List Prog)
@@ -246,7 +400,7 @@ theorem big_sound (E : Env S Unit π) {c : Call S Unit} {s s' : St S Unit π} {r
     have hseen := hi.heap_seen _ _ hm
     have hg := hi.seen_gen _ _ hseen
     have h1 := (hi.setHeap_sub nt h' hsub).setSucc nt key e.2 hseen
-    refine ⟨(iha (h1.congr (fun _ => rfl) (fun _ => rfl) (fun _ => rfl)) hg).1, ?_⟩
+    refine ⟨(iha (h1.congr (fun _ => rfl) (fun _ => rfl) (fun _ => rfl) h1.cache_ok) hg).1, ?_⟩
     intro q hq; cases hq; exact hg
   | succ_leaf => intro hi _; exact ⟨hi, trivial⟩
   | @succ_fun s s' F a as nt r rl x hd hr hb ih =>
